@@ -349,3 +349,59 @@ func (f failer) Fatalf(format string, args ...any) {
 
 func TestReplay(t *testing.T)   { pbt.RunReplay(t, oracle) }
 func TestARegress(t *testing.T) { pbt.RunRegress(t, "C08", oracle) }
+
+// Fragments: small well-formed and ill-formed pieces of programs. All ordered pairs (and random longer
+// sequences) joined by each separator: parser state that survives from one statement into the next (counters,
+// flags, pending errors) shows when a complete piece cancels or masks the defect of another.
+var fragments = []string{
+	"a = 1", "b = a[1:3]", "c = a[1:]", "a[0]", "a[-1:2][0]", "[2:]", "(1:]", "[true:]", "x = [1:", "[1, 2][1:]", "m = {1:2}", "{1:}", "m[1:2]",
+	"f(x)", "f(", "f(1,", ")", "]", "}", "(", "[", "{", "()", "() =>", "() => 1", "(a, b) => a", "(a, 1) => a", "x =>", "=> 1",
+	"func f() { 1 }", "func f(", "func(a,", "func f() {", "func(..) { .. }", "func(.., a) { a }",
+	"if a { 1 }", "if a { 1 } else { 2 }", "if a {", "else { 1 }", "if { 1 }", "if a { 1 } else", "if a { 1 } else if b { 2 }",
+	"for i = 3 { i }", "for i = 1:3 { i }", "for { }", "for a {", "for i = { }", "break", "continue", "return", "return 1",
+	"1 +", "+ 1", "a = ", "= 1", "a := 1", "a.b", "a.", ".b", "a.1", "1.2.3", "1e", "a++", "++a", "a--b", "a ++ b", "!", "!a", "- -a", "a ? b",
+	"\"str\"", "\"open", "`raw`", "`open", "// comment", "/* block */", "/* open", "a /* c */ + 1", "macro(x) { quote(unquote(x)) }", "m2 = macro(", "quote(", "unquote(1)",
+	"println(1)", "println(", "len()", "len(1, 2)", "error(\"e\")", "catch(1/0)", "del(a)", "del()", "info", "first([1])", "1; 2", ";", ";;", "@", "$x", "\x00", "\xff",
+}
+
+func TestFragments(t *testing.T) {
+	seps := []string{" ", "\n", "; ", ""}
+	var total, nontriv int64
+	idx := 0
+	for i, a := range fragments {
+		for j, b := range fragments {
+			idx++
+			if !pbt.Mine(idx) {
+				continue
+			}
+			_ = i
+			_ = j
+			for _, sep := range seps {
+				in := []byte(a + sep + b)
+				o1, o2 := runBoth(t, "fragments", in)
+				total += 2
+				if nontrivial(o1) {
+					nontriv++
+				}
+				if nontrivial(o2) {
+					nontriv++
+				}
+			}
+		}
+	}
+	pbt.AddExact(total, nontriv, "fragments:all-pairs")
+	pbt.Sample("fragments", fmt.Sprintf("all ordered pairs of %d fragments x separators %q", len(fragments), seps))
+	pbt.Check(t, 20000, 600000, func(rt *rapid.T) {
+		parts := rapid.SliceOfN(rapid.SampledFrom(fragments), 3, 6).Draw(rt, "fragments")
+		sep := rapid.SampledFrom(seps[:3]).Draw(rt, "sep")
+		in := []byte(strings.Join(parts, sep))
+		pbt.InFlight("fragments", Case{Input: in})
+		o1, _ := runBoth(rt, "fragments", in)
+		lbl := "fragments:rejected-or-incomplete"
+		if o1.accepted {
+			lbl = "fragments:accepted"
+		}
+		pbt.Case(nontrivial(o1), string(in), lbl)
+		pbt.Sample("fragment-sequences", string(in))
+	})
+}
